@@ -93,6 +93,6 @@ Run(design, f, pkg) ==
 Outside(f) == {n \in f : ~Inside(n.path)}
 Contained(f0, f) == Outside(f) = Outside(f0)
 
-\* the jail before extraction: the target directory (just created) and a victim outside of it
-Fs0 == {Dir(<<>>), Dir(Root), Dir(<<"out">>), File(<<"out", "victim">>, "precious")}
+\* the jail before extraction: the target directory (just created), a victim and a directory outside of it
+Fs0 == {Dir(<<>>), Dir(Root), Dir(<<"out">>), Dir(<<"out", "sub">>), File(<<"out", "victim">>, "precious")}
 =============================================================================
